@@ -441,11 +441,53 @@ func (m *omap) len() int {
 }
 
 type omapIter struct {
-	m *omap
-	i int
+	m    *omap
+	i    int
+	perm []int // explicit visiting order (permuted iteration)
+}
+
+var perms3 = [][]int{{0, 1, 2}, {0, 2, 1}, {1, 0, 2}, {1, 2, 0}, {2, 0, 1}, {2, 1, 0}}
+
+// newMapIter starts an iteration; under permuteMaps the order of small maps
+// is a decision.
+func newMapIter(p *pathState, m *omap) *omapIter {
+	it := &omapIter{m: m}
+	if m == nil || !p.permuteMaps || m.live < 2 || m.live > 3 {
+		return it
+	}
+	var liveIdx []int
+	for i := range m.entries {
+		if !m.entries[i].deleted {
+			liveIdx = append(liveIdx, i)
+		}
+	}
+	var order []int
+	if len(liveIdx) == 2 {
+		if p.decideChoice(2) == 1 {
+			order = []int{1, 0}
+		} else {
+			order = []int{0, 1}
+		}
+	} else {
+		order = perms3[p.decideChoice(6)]
+	}
+	for _, o := range order {
+		it.perm = append(it.perm, liveIdx[o])
+	}
+	return it
 }
 
 func (it *omapIter) next() tuple {
+	if it.perm != nil {
+		for it.i < len(it.perm) {
+			e := &it.m.entries[it.perm[it.i]]
+			it.i++
+			if !e.deleted {
+				return tuple{true, e.key, e.val}
+			}
+		}
+		return tuple{false, nil, nil}
+	}
 	if it.m != nil {
 		for it.i < len(it.m.entries) {
 			e := &it.m.entries[it.i]
